@@ -20,6 +20,7 @@ static void part_model(Ctx& ctx, uint64_t n, bool inverse) {
   if (!ctx.want(id)) return;
   ctx.begin_case(id);
   q120_ntt_precomp* pc = inverse ? q120_new_intt_bb_precomp(n) : q120_new_ntt_bb_precomp(n);
+  if (!ntt_tables_ready(pc, inverse)) { ctx.end_case(false); return; }  // tables not readable in this build: the basis and module parts still decide
   EnvResult R = envelope_ntt(pc, inverse);
   for (auto& f : R.failures) ctx.violation(id, "a lane can wrap for some 64-bit content: " + f);
   std::vector<std::string> tf; uint64_t words = 0;
@@ -222,7 +223,7 @@ int main(int argc, char** argv) {
     }
   }
   for (int lg = 16; lg >= 0; --lg) { uint64_t n = 1ull << lg; items.push_back({3, n, false, 0, 0}); items.push_back({1, n, false, 0, 0}); items.push_back({1, n, true, 0, 0}); }
-  for (uint64_t N : (th ? std::vector<uint64_t>{65536, 1024, 64, 8, 4, 2, 1} : std::vector<uint64_t>{64, 8, 4, 2, 1})) items.push_back({4, N, false, 0, 0});
+  for (uint64_t N : (th ? std::vector<uint64_t>{65536, 1024, 64, 8, 4, 2, 1} : std::vector<uint64_t>{8192, 64, 8, 4, 2, 1})) items.push_back({4, N, false, 0, 0});
   ctx.parallel(items.size(), [&](uint64_t i) {
     const It& it = items[i];
     switch (it.part) { case 1: part_model(ctx, it.n, it.inv); break; case 2: part_basis(ctx, it.n, it.i0, it.i1); break; case 3: part_concrete(ctx, it.n); break; case 4: part_module(ctx, it.n); break; }
